@@ -106,7 +106,7 @@ std::vector<Job> jobsFor(const std::string& tier, const bool traceBuild){
     if(commutative && !TSM){
         for(auto& job : j){
             if(tier != "thorough" && job.mode == 0 && (job.name == "h4-4leaves-bs2-upper1" || job.name == "h3-6leaves-bs2" || job.name == "h5-4leaves-bs2" || job.name == "h5-6leaves-bs3")){ job.mode = 2; job.bound = 2; }
-            if(tier != "thorough" && job.mode == 2 && job.name == "h4-11leaves-bs4-two") job.bound = 1;
+            if(tier != "thorough" && job.mode == 2 && job.name == "h4-11leaves-bs4-varied") job.bound = 1;
         }
     }
     if(getenv("VF_SCHED_LIGHT")){
@@ -136,7 +136,7 @@ std::vector<Job> jobsFor(const std::string& tier, const bool traceBuild){
             job.spec.srcParts = src;
             // the target/source graphs are larger: in the quick tier the bigger ones are explored with a deviation bound
             if(tier != "thorough" && job.mode == 0 && (job.name == "h4-4leaves-bs2-upper1" || job.name == "h3-6leaves-bs2" || job.name == "h5-4leaves-bs2" || job.name == "h5-6leaves-bs3")){ job.mode = 2; job.bound = 2; }
-            if(tier != "thorough" && job.mode == 2 && job.name == "h4-11leaves-bs4-two") job.bound = 1;
+            if(tier != "thorough" && job.mode == 2 && job.name == "h4-11leaves-bs4-varied") job.bound = 1;
         }
     }
     return j;
@@ -155,7 +155,7 @@ std::vector<Job> jobsForSingle(const std::string& tier, const bool traceBuild){
     const Spec t1g = leavesSpec(3, {0, 7, 56, 63}, 2, true);
     const Spec t2g = leavesSpec(4, {0, 7, 448, 511}, 1, true);
     const Spec t2u = leavesSpec(4, {0, 7, 448, 511}, 2, false, 1);
-    const Spec t8 = leavesSpec(4, {0, 1, 2, 3, 4, 5, 6, 7, 8, 9, 10}, 4, false, 2, MTwo);
+    const Spec t8 = leavesSpec(4, {0, 1, 2, 3, 4, 5, 6, 7, 8, 9, 10}, 4, false, 2, MVaried);
     if(!traceBuild){
         j.push_back({"h3-4leaves-bs2", t1, 2, 0, 0});
         j.push_back({"h4-4leaves-bs2", t2, 2, 0, 0});
@@ -165,7 +165,7 @@ std::vector<Job> jobsForSingle(const std::string& tier, const bool traceBuild){
         j.push_back({"h3-6leaves-bs2", t3, 2, 0, 0});
         j.push_back({"h5-4leaves-bs2", t4, 2, 0, 0});
         j.push_back({"h5-6leaves-bs3", t5, 3, 0, 0});
-        j.push_back({"h4-11leaves-bs4-two", t8, 2, 2, 2});
+        j.push_back({"h4-11leaves-bs4-varied", t8, 2, 2, 2});
         if(thorough){
             j.push_back({"h4-4leaves-bs1-ogpp", t2g, 2, 0, 0});
             j.push_back({"h4-6leaves-bs2", t6, 2, 0, 0});
@@ -179,7 +179,7 @@ std::vector<Job> jobsForSingle(const std::string& tier, const bool traceBuild){
         j.push_back({"h3-6leaves-bs2", t3, 2, 2, 1});
         j.push_back({"h5-4leaves-bs2", t4, 2, 2, 1});
         j.push_back({"h5-6leaves-bs3", t5, 3, 2, 1});
-        j.push_back({"h4-11leaves-bs4-two", t8, 2, 2, 1});
+        j.push_back({"h4-11leaves-bs4-varied", t8, 2, 2, 1});
         if(thorough){
             j.push_back({"h3-6leaves-bs2", t3, 2, 0, 0});
             j.push_back({"h5-4leaves-bs2", t4, 2, 0, 0});
